@@ -290,7 +290,13 @@ func runRemote(o *opts) {
 				v := missingLocally[rr.intn(len(missingLocally))]
 				vp := cachePathOf(remote, v.Digest)
 				must(os.Rename(vp, vp+".aside"))
-				do(false, want(33, 36, 37), "fetch with an object missing on the remote")
+				fsp := want(33, 36)
+				if len(targets) == 0 {
+					// every stage is fetched, so the object set aside is needed: the fetch must fail
+					// (with targets it may lie outside what was asked for)
+					fsp = want(33, 36, 37)
+				}
+				do(false, fsp, "fetch with an object missing on the remote")
 				must(os.Rename(vp+".aside", vp))
 				s.count("fetch:failed-part-way-then-retried")
 			}
